@@ -14,10 +14,10 @@ func TestCheck(t *testing.T) {
 	walrig.RunCheck(t, walrig.Params{
 		Part:         "main",
 		Driver:       walrig.HarnessDriver(),
-		Quick:        45,
-		Thorough:     1200,
+		Quick:        40,
+		Thorough:     800,
 		BulkEvery:    5,
-		MinCuts:      [2]int64{8000, 300000},
+		MinCuts:      [2]int64{8000, 150000},
 		MinAutoRot:   3,
 		MinPurgeRemv: 5,
 	})
